@@ -25,21 +25,8 @@ func VerifC10RoundTrip() {
 	}
 	// Known-finding regions (see known_findings.json); each is assumed away
 	// only while the finding is open.
-	if vParam("kf_c10_wildcard_tail") == 1 && v.IsWildcard() {
-		// a component or prerelease after the first wildcard is dropped by Canon
-		w := false
-		tail := false
-		for _, x := range v.num {
-			if w {
-				tail = true
-			}
-			if x == wildcard {
-				w = true
-			}
-		}
-		if tail || len(v.pre) > 0 {
-			return
-		}
+	if vParam("kf_c10_wildcard_tail") == 1 && c10WildcardTail(v) {
+		return
 	}
 	if vParam("kf_c10_maven_leading_sep") == 1 && sys == Maven && c10MavenLeadingSep(s) {
 		return
@@ -62,6 +49,24 @@ func VerifC10RoundTrip() {
 	}
 }
 
+// c10WildcardTail: the region of the open finding "Canon drops what follows the first wildcard": a component or a
+// prerelease after the first wildcard component.
+func c10WildcardTail(v *Version) bool {
+	if !v.IsWildcard() {
+		return false
+	}
+	w, tail := false, false
+	for _, x := range v.num {
+		if w {
+			tail = true
+		}
+		if x == wildcard {
+			w = true
+		}
+	}
+	return tail || len(v.pre) > 0
+}
+
 func VerifC10SameCanon() {
 	sys := System(vParam("sys"))
 	a := vBytes("a", vParam("n"))
@@ -78,6 +83,9 @@ func VerifC10SameCanon() {
 		return
 	}
 	if vParam("kf_c10_maven_leading_sep") == 1 && sys == Maven && (c10MavenLeadingSep(a) || c10MavenLeadingSep(b)) {
+		return
+	}
+	if vParam("kf_c10_wildcard_tail") == 1 && (c10WildcardTail(va) || c10WildcardTail(vb)) {
 		return
 	}
 	ca, cb := va.Canon(true), vb.Canon(true)
